@@ -136,7 +136,10 @@ fn post_phase(ctx: &Ctx, scn: &Scn, n_accepted_hint: usize) {
 fn teardown(ctx: &Ctx) {
     for i in 0..NSLOTS as u8 {
         if ctx.slot_live(i) {
-            ctx.exec(MAIN, &op(OpK::DropH, i));
+            // receivers leave through unsubscribe(): same effect as a drop, and
+            // the answer ("was I the last of my stream?") is checked by C11
+            let sender = ctx.slot_kind(i).map(|k| k.contains("Sender")).unwrap_or(false);
+            ctx.exec(MAIN, &op(if sender { OpK::DropH } else { OpK::Unsub }, i));
         }
     }
 }
